@@ -316,3 +316,29 @@ def d14b_degenerate_authority_eager_host(prop, mech, case, info, variant):
         return u is None or u.raw_authority == ""
     except Exception:
         return False
+
+
+@finding("D15", ["C18"])
+def d15_human_repr_nfkc_userinfo(prop, mech, case, info, variant):
+    """Mechanism: human_repr() shows printable non-ASCII userinfo characters
+    literally; a character whose NFKC form contains / ? # @ : then trips the
+    parser's NFKC screen on the way back.  Input predicate: user or password
+    contains such a character.  Bug model: the only defect is that
+    URL(human_repr) raises the NFKC ValueError."""
+    if mech != "human_repr" or info.get("kinds") != ["roundtrip_raises"]:
+        return False
+    kw = info.get("_kw") or {}
+    from .oracles.host import nfkc_hostile
+
+    ui = (kw.get("user") or "") + (kw.get("password") or "")
+    if not any(nfkc_hostile(c) for c in ui):
+        return False
+    from yarl import URL
+
+    try:
+        URL(info["hr"])
+    except ValueError as e:
+        return "NFKC" in str(e)
+    except Exception:
+        return False
+    return False
